@@ -320,6 +320,28 @@ def main(tier):
             sig = {"what": "not rejected", "variant": nm, "outcome": o["outcome"]}
             chk.violation("%s must be rejected, observed %s | document:\n%s" % (nm, rel.describe(o), t[:1200]),
                           {"kind": "path_reject", "variant": nm, "file": t, "observed": o, "signature": sig}, sig)
+    # a Path body that is not flat, in a URL whose parameters no HTTP interaction binds (no method under it / only methods
+    # elsewhere): rejected like anywhere else.  Inline objects and arrays are checked when the Path is read; a property that
+    # REFERS to an object / array type only when some interaction binds it (finding F-50)
+    ub = {}
+    ubt = 'JSIGHT 0.3\nTYPE @zobj\n{\n  "a": 1\n}\nTYPE @zarr\n[1]\n'
+    for vn, val in (("inline_object", '{"a": 1}'), ("inline_array", "[1]"), ("object_type", "@zobj"), ("array_type", "@zarr"), ("or_object", "@zobj | @zarr")):
+        pb = '  Path\n  {\n    "id": %s\n  }\n' % val
+        ub[(vn, "no_method")] = ubt + "URL /zu/{id}\n" + pb
+        ub[(vn, "methods_elsewhere")] = ubt + "URL /zu/{id}\n" + pb + "GET /zelse\n  200 any\n"
+        ub[(vn, "bound")] = ubt + "URL /zu/{id}\n" + pb + "  GET\n    200 any\n"
+        ub[(vn, "bound_by_a_longer_path")] = ubt + "URL /zu/{id}\n" + pb + "GET /zu/{id}/more\n  200 any\n"
+    uobs = harness("run", [rel.case("ub%d" % k, t) for k, t in enumerate(ub.values())])
+    for k, ((vn, where), t) in enumerate(ub.items()):
+        o = uobs["ub%d" % k]
+        chk.evaluations += 1
+        chk.traces += 1
+        chk.nontrivial.add("unbound:%s:%s" % (vn, where))
+        if o["outcome"] != "error":
+            nm = ("unbound_prop_" if where in ("no_method", "methods_elsewhere") else "bound_prop_") + vn
+            sig = {"what": "not rejected", "variant": nm, "outcome": o["outcome"]}
+            chk.violation("%s (%s) must be rejected, observed %s | document:\n%s" % (nm, where, rel.describe(o), t),
+                          {"kind": "path_reject", "variant": nm, "file": t, "observed": o, "signature": sig}, sig)
     for n, forms in shorts.items():
         base = obs["s%d_inline" % n]
         chk.evaluations += 1
